@@ -11,7 +11,10 @@
     [routed_all t] are all messages the router sees, including those dispatched by authz MsgExec.
     [share cfg rs a d] = sum over the fee charges of messages [rs] whose recipient is [a], in denom [d],
     of amount*bips/10000 (integer floor); [shares_total] the same over all recipients; [additional] the
-    sum of the charges themselves; [msg_net] what the messages' own sends moved.
+    sum of the charges themselves - the message-type fees, the custom assessed fees AND the fees that
+    handlers record on the fee gas meter themselves after they succeeded (x/exchange payment flat fees,
+    [r_post]); [additional_pre] leaves the last kind out: it is all the mempool check and the router can
+    know; [msg_net] what the messages' own coin movements moved.
     Hypotheses [wf_cfg]/[wf_tx]: basis points are unsigned, the declared fee has no negative amount. *)
 From Coq Require Import ZArith NArith List.
 Import ListNotations.
@@ -33,8 +36,8 @@ Proof. exact c08_debit. Qed.
 Print Assumptions C08_debit.
 
 (** A transaction succeeds only if the declared fee covers the base fee plus every additional message
-    fee incurred, nested authz-dispatched messages and custom assessed fees included (so: not covered
-    implies the transaction fails). *)
+    fee incurred - nested authz-dispatched messages, custom assessed fees and fees recorded by the
+    handlers themselves included (so: not covered implies the transaction fails). *)
 Theorem C08_additional_covered : forall cfg s t s',
   wf_cfg cfg -> wf_tx t -> check_tx cfg s t = true -> deliver cfg s t = (s', ROk) ->
   forall d, amount_of (base_fee cfg (t_gas t)) d + additional cfg (routed_all t) d <= amount_of (t_fee t) d.
@@ -71,7 +74,7 @@ Print Assumptions C08_share_is_floor.
 Theorem C08_rejected_never_charged : forall cfg s t,
   (check_tx cfg s t = false -> step s (OTx cfg t) = (s, RRejected)) /\
   (wf_cfg cfg -> wf_tx t ->
-   ~ (forall d, amount_of (base_fee cfg (t_gas t)) d + additional cfg (routed_top t) d <= amount_of (t_fee t) d) ->
+   ~ (forall d, amount_of (base_fee cfg (t_gas t)) d + additional_pre cfg (routed_top t) d <= amount_of (t_fee t) d) ->
    check_tx cfg s t = false).
 Proof. exact c08_rejected. Qed.
 Print Assumptions C08_rejected_never_charged.
@@ -114,8 +117,8 @@ Definition ex_state : state :=
 Definition ex_tx (amt : Z) : tx :=
   {| t_fee := [(1%N, 400800); (2%N, 10)]; t_gas := 200000; t_payer := 1%N; t_granter := Some 2%N;
      t_signers := [1%N];
-     t_msgs := [ {| m_top := {| r_type := 2%N; r_custom := None; r_action := ANop true |};
-                    m_nested := [ {| r_type := 1%N; r_custom := None; r_action := ASend 1%N 4%N [(3%N, amt)] |} ] |} ];
+     t_msgs := [ {| m_top := {| r_type := 2%N; r_custom := None; r_action := ANop true; r_post := [] |};
+                    m_nested := [ {| r_type := 1%N; r_custom := None; r_action := ASend 1%N 4%N [(3%N, amt)]; r_post := [] |} ] |} ];
      t_sig_ok := true; t_gas_out := GasOk |}.
 
 Example C08_witness :
